@@ -352,7 +352,7 @@ def svdtf(source, target):
     U, S, Vh = torch.linalg.svd(M)
     R = U @ Vh
     mask = (R.det() + 1).abs() < 1e-6
-    R[mask] = - R[mask]
+    R[mask] = R[mask] - 2 * U[mask][..., :, -1:] @ Vh[mask][..., -1:, :]
     t = ctntarget.mT - R @ ctnsource.mT
     T = torch.cat((R, t), dim=-1)
     return mat2SE3(T, check=False)
